@@ -147,6 +147,8 @@ def count_qed(pid):
             for mod in stmt.split():
                 if mod.startswith("BS."):
                     todo.append(os.path.join(COQ, "theories", mod[3:] + ".v"))
+                elif mod.startswith("BSgen."):
+                    todo.append(os.path.join(COQ, "gen", mod[6:] + ".v"))
                 elif mod.startswith("BSprops."):
                     todo.append(os.path.join(COQ, "props", mod[8:] + ".v"))
     return n, sorted(os.path.relpath(f, COQ) for f in seen)
@@ -303,7 +305,14 @@ def check(pid, tier, seed):
     with Lock():
         ok, tlog = translate()
         if not ok:
-            problems.append(("tie1", tlog))
+            # a part of the source the translators no longer recognise counts for the properties whose theorems depend on
+            # the file generated from it (Consts / HeaderText: every property)
+            m = re.search(r"^translate-broken: (.*)$", tlog, flags=re.M)
+            parts = m.group(1).split(",") if m else ["Consts"]
+            cone_files = count_qed(pid)[1]
+            hit = [x for x in parts if x == "Consts" or ("gen/%s.v" % x) in cone_files]
+            if hit:
+                problems.append(("tie1", tlog))
         ok_all, log = coq_build(clean=(tier == "thorough" and os.environ.get("BSV_NO_CLEAN") != "1"))
         ok = ok_all or coq_target_ok(pid)
         if not ok:
